@@ -83,7 +83,8 @@ Definition d_scanner (s : sexp) : scanner :=
   mkScanner (d_str (d_nth s 0)) (d_pfname (d_nth s 1)) (d_Z (d_nth s 2)) (d_Z (d_nth s 3)).
 Definition d_auxctx (s : sexp) : auxctx :=
   mkAuxctx (d_pfname (d_nth s 0)) (d_opt d_Z (d_nth s 1)) (d_opt d_str (d_nth s 2)).
-(* constructor calls: (0 msg fname) (1 etype msg sc) (2 sc) (3 desc sc) (4 desc sc start?) (5 msg auxctx) *)
+(* constructor calls: (0 msg fname) (1 etype msg sc) (2 sc) (3 desc sc) (4 desc sc start?) (5 msg auxctx)
+   (6 desc text fname pos): TokenRequired over a line-less scanner   (7 etype msg fname): syntax error of one *)
 Definition d_construct (s : sexp) : err :=
   match d_Z (d_nth s 0) with
   | 0%Z => new_pybtex_error 0 (d_str (d_nth s 1)) (d_fname (d_nth s 2))
@@ -91,7 +92,9 @@ Definition d_construct (s : sexp) : err :=
   | 2%Z => new_premature_eof 0 (d_scanner (d_nth s 1))
   | 3%Z => new_token_required 0 (d_str (d_nth s 1)) (d_scanner (d_nth s 2))
   | 4%Z => new_token_required_bib 0 (d_str (d_nth s 1)) (d_scanner (d_nth s 2)) (d_opt d_Z (d_nth s 3))
-  | _ => new_aux_error 0 (d_str (d_nth s 1)) (d_auxctx (d_nth s 2))
+  | 5%Z => new_aux_error 0 (d_str (d_nth s 1)) (d_auxctx (d_nth s 2))
+  | 6%Z => new_token_required_nl 0 (d_str (d_nth s 1)) (d_str (d_nth s 2)) (d_pfname (d_nth s 3)) (d_Z (d_nth s 4))
+  | _ => new_syntax_error_nl 0 (d_str (d_nth s 1)) (d_str (d_nth s 2)) (d_pfname (d_nth s 3))
   end.
 
 Definition start (strict : bool) (code : Z) : G := mkG strict code None [] [].
@@ -133,6 +136,15 @@ Definition dispatch (fn : Z) (a : sexp) : sexp :=
        e_res e_str (format_error e k_error);
        e_opt e_Z (match e_kind e with SSyntax _ l => l | _ => None end);   (* the public lineno attribute *)
        e_res (e_opt e_str) (err_filename e)]
+  | 18%Z =>
+    match lineless_required (d_str (d_nth a 0)) (d_str (d_nth a 1)) (d_pfname (d_nth a 2)) 0 with
+    | inl tok => L [A 0%Z; e_str tok]
+    | inr e =>
+      L [A 1%Z;
+         e_opt e_Z (match e_kind e with SSyntax _ l => l | SAux l => l | SPlain => None end);
+         e_res (e_opt e_str) (err_context e);
+         e_res e_str (format_error e k_error)]
+    end
   | 8%Z => e_list e_str (splitlines (d_bool (d_nth a 0)) (d_str (d_nth a 1)))
   | 9%Z => e_str (Z_to_str (d_Z a))
   | _ => L []
